@@ -238,12 +238,19 @@ class RecLog(task.RecurringTask):
         self.log.append(vclock.tm().get_time())
 
 
-def p2_case(interval_ms, offset_ms, t_install, periods=50):
-    """Returns (mismatch or None, observation)"""
+def p2_case(interval_ms, offset_ms, t_install, periods=50, prior=None):
+    """prior=(interval, offset): the task was installed with those parameters before (same instant) and is installed
+    again with the given ones, None meaning "not given" (the earlier value stays).  Returns (mismatch or None, observation)"""
     vclock.reset(t_install)
     log = []
     rt = RecLog(log)
-    rt.install_task(interval=interval_ms, offset=offset_ms)
+    if prior is not None:
+        rt.install_task(interval=prior[0], offset=prior[1])
+        rt.install_task(interval=interval_ms, offset=offset_ms)
+        interval_ms = prior[0] if interval_ms is None else interval_ms
+        offset_ms = prior[1] if offset_ms is None else offset_ms
+    else:
+        rt.install_task(interval=interval_ms, offset=offset_ms)
     I = interval_ms / 1000.0
     off = (offset_ms or 0) / 1000.0
     ulp = math.ulp(max(1.0, abs(t_install) + periods * I))
@@ -316,10 +323,33 @@ def p2_grid(tier):
                     yield (I, off, base + t)
 
 
+def p2_regrid(tier):
+    """A recurring task that already has an interval and an offset is installed again: with another interval or none, with
+    another offset, offset 0 (the only way to take an offset away) or none."""
+    for base in (0.0, 1.7e9):
+        for I0, off0 in ((100, 25), (1000, 250), (1000, 0), (300, 299)):
+            for I in (None, I0, 700):
+                for off in (None, 0, 1, 50):
+                    for t in (0.0, 0.25, 2.5, 12.3456789):
+                        yield (I, off, base + t, (I0, off0))
+
+
 def p2_shard(item, deadline):
     acc = Acc()
-    for (I, off, t) in item:
-        bad, log = p2_case(I, off, t)
+    for it_ in item:
+        I, off, t = it_[:3]
+        prior = it_[3] if len(it_) > 3 else None
+        bad, log = p2_case(I, off, t, prior=prior)
+        if prior is not None:
+            acc.case(("p2", I, off, t, prior))
+            acc.transitions += len(log)
+            acc.traces += 1
+            acc.outcome("p2:reinstalled:%s" % ("ok" if bad is None else bad[0]))
+            if bad is not None:
+                acc.fail("recurring:reinstalled:%s" % bad[0], {"mismatch": bad, "installed_first_with": prior, "then_interval_ms": I,
+                                                                 "then_offset_ms": off, "install_at": t, "first_fires": log[:4]},
+                         {"part": 2, "interval_ms": I, "offset_ms": off, "t": t, "prior": list(prior)})
+            continue
         acc.case(("p2", I, off, t))
         acc.transitions += len(log)
         acc.traces += 1
@@ -327,7 +357,7 @@ def p2_shard(item, deadline):
         if bad is not None:
             acc.fail("recurring:%s" % bad[0], {"mismatch": bad, "interval_ms": I, "offset_ms": off, "install_at": t, "first_fires": log[:4]},
                      {"part": 2, "interval_ms": I, "offset_ms": off, "t": t})
-    if item:
+    if item and len(item[0]) == 3:
         I, off, t = item[0]
         acc.sample({"part": 2, "interval_ms": I, "offset_ms": off, "install_at": t, "first_fires": p2_case(I, off, t)[1][:3]})
     return acc
@@ -339,7 +369,7 @@ class Boom(Exception):
     pass
 
 
-def p3_case(n, raising, parent, n_tasks, task_raising, loop_kind, kind="function"):
+def p3_case(n, raising, parent, n_tasks, task_raising, loop_kind, kind="function", stopper=None):
     """n deferred functions; those in `raising` raise; `parent` (index or None) defers two children (the second
     child defers a grandchild); n_tasks due tasks of which task_raising raise.  kind: what sort of callable is handed
     to core.deferred (a plain function, a functools.partial, an object with __call__, a bound method - the last three
@@ -351,6 +381,8 @@ def p3_case(n, raising, parent, n_tasks, task_raising, loop_kind, kind="function
         if kind != "function" and (args != (1, 2) or kwargs != {"k": 3}):
             calls.append(("wrong-arguments", name, args, kwargs))
         calls.append(name)
+        if name == stopper:
+            core.stop()         # the application asks the loop to end: what is queued is still owed its call
         if name == parent:
             defer("c0")
             defer("c1")
@@ -460,6 +492,14 @@ def p3_cases(tier):
                                 if n >= 5 and n_tasks == 3:
                                     continue
                                 yield (n, tuple(raising) + extra, parent, n_tasks, traise, loop_kind)
+    # one member of the batch calls core.stop() (real run() loop): everything handed over before the loop ends is called
+    for n in range(2, nmax):
+        for stopper in range(n):
+            for r in (0, 1):
+                for raising in itertools.combinations(range(n), r):
+                    for parent in [None] + list(range(n)):
+                        for n_tasks, traise in ((0, ()), (2, ("t0",))):
+                            yield (n, tuple(raising), parent, n_tasks, traise, "run", "function", stopper)
     # the same batches made of other kinds of callables (applications defer partials, callable objects and bound methods
     # with arguments), with fewer task backgrounds
     for kind in ("partial", "instance", "method"):
@@ -477,7 +517,8 @@ def p3_shard(item, deadline):
     for c in item:
         n, raising, parent, n_tasks, traise, loop_kind = c[:6]
         kind = c[6] if len(c) > 6 else "function"
-        bad, calls = p3_case(n, set(raising), parent, n_tasks, set(traise), loop_kind, kind)
+        stopper = c[7] if len(c) > 7 else None
+        bad, calls = p3_case(n, set(raising), parent, n_tasks, set(traise), loop_kind, kind, stopper)
         if bad is None and any(isinstance(x, tuple) and x and x[0] == "wrong-arguments" for x in calls):
             bad = ("deferred-callable-got-other-arguments", [x for x in calls if isinstance(x, tuple)][:2])
         acc.case(("p3",) + c)
@@ -486,7 +527,8 @@ def p3_shard(item, deadline):
         acc.outcome("p3:%s" % ("ok" if bad is None else bad[0]))
         if bad is not None:
             where = "deferred" if raising else "task"
-            acc.fail("isolation:%s:%s:raiser-in-%s" % (loop_kind, bad[0], where if (raising or traise) else "nobody"),
+            acc.fail("isolation:%s:%s:raiser-in-%s%s" % (loop_kind, bad[0], where if (raising or traise) else "nobody",
+                                                         ":a-member-calls-stop" if stopper is not None else ""),
                      {"mismatch": bad, "case": c, "calls": calls}, {"part": 3, "case": c})
     if item:
         acc.sample({"part": 3, "case": item[0], "calls": p3_case(item[0][0], set(item[0][1]), item[0][2], item[0][3], set(item[0][4]), *item[0][5:])[1]})
@@ -688,6 +730,9 @@ def run(tier, seed, deadline):
     cases2 = list(p2_grid(tier))
     run_shards(p2_shard, chunks(cases2, 32), deadline, into=acc)
     acc.info["part2 cases"] = len(cases2)
+    cases2b = list(p2_regrid(tier))
+    run_shards(p2_shard, chunks(cases2b, 32), deadline, into=acc)
+    acc.info["part2 cases with a re-installed recurring task"] = len(cases2b)
     cases3 = list(p3_cases(tier))
     run_shards(p3_shard, chunks(cases3, 32), deadline, into=acc)
     acc.info["part3 cases"] = len(cases3)
@@ -719,7 +764,8 @@ def replay(case):
         bad, canon = p1_run(case["n"], chain, hist)
         return bad is None, "history=%r -> %r" % (hist, bad or canon)
     if part == 2:
-        bad, log = p2_case(case["interval_ms"], case["offset_ms"], case["t"])
+        bad, log = p2_case(case["interval_ms"], case["offset_ms"], case["t"],
+                           prior=tuple(case["prior"]) if case.get("prior") else None)
         return bad is None, "recurring %r -> %r first fires %r" % (case, bad, log[:5])
     if part == 4:
         bad, got = p4_case(tuple(case["order"]), tuple(case["removes"]), tuple(case["moves"]))
@@ -737,6 +783,7 @@ def replay(case):
     if part == 3:
         n, raising, parent, n_tasks, traise, loop_kind = case["case"][:6]
         kind = case["case"][6] if len(case["case"]) > 6 else "function"
-        bad, calls = p3_case(n, set(raising), parent, n_tasks, set(traise), loop_kind, kind)
+        stopper = case["case"][7] if len(case["case"]) > 7 else None
+        bad, calls = p3_case(n, set(raising), parent, n_tasks, set(traise), loop_kind, kind, stopper)
         return bad is None, "deferred batch %r -> %r calls=%r" % (case["case"], bad, calls)
     return False, "unknown part"
